@@ -10,9 +10,29 @@ def g(entry, fns, **kw):
                     unwind=kw.pop("unwind", 14), timeout=kw.pop("timeout", 900), functions=fns, object_bits=kw.pop("object_bits", 10), **kw))
 for gran in (1, 2, 4):
     for e in ("WriteBytes_fit_new", "WriteBytes_fit_old", "WriteBytes_fit_hdr"):
-        g(e, ["WriteBytes"], defs=["-DVERIF_GRAN=%d" % gran], tier="quick" if (gran == 2 or e.endswith("new")) else "thorough")
+        g(e, ["WriteBytes"], defs=["-DVERIF_GRAN=%d" % gran], tier="quick", timeout=300)
         GROUPS[-1]["name"] = "cf_%s_g%d" % (e, gran)
+g("NewRecord_empty", ["NewRecord", "WrRecHeader", "FlushBuffer"]); g("NewRecord_full", ["NewRecord", "WrRecHeader", "FlushBuffer"])
+for gran in (1, 2, 4):
+    g("WriteBytes_overflow", ["WriteBytes", "NewRecord"], defs=["-DVERIF_GRAN=%d" % gran], timeout=300); GROUPS[-1]["name"] = "cf_WriteBytes_overflow_g%d" % gran
+g("OpenFile", ["OpenFile", "NewRecord"]); g("CloseFile", ["CloseFile", "NewRecord"], unwind=16)
+GROUPS.append(G("as_WriteCode", "harness/C04/h_as_writecode.c", "h_WriteCode", enforce=[], link=["asmdef.c"], stubs=STUBS, unwind=14, timeout=600,
+                functions=["WriteCode"], object_bits=12, dfcc=False, defs=["-DSTRINGSIZE=64"]))
 TRUSTED_BASE = ["stubs/gfile.c ghost stdio model (witness byte)", "Granularity()/ProgCounter() oracles", "ChkIO: a failed write ends the run"]
 ASSUMPTIONS = ["no relocatable segments (PatchList == ExportList == NULL)", "CodeLen * granularity <= 65535 (16-bit ErgLen)"]
 NOT_COVERED = []
 EXPLANATION = ""
+
+MANIFEST = dict(
+    category="proof",
+    text="The code-file writer of asmcode.c is verified on the real code over a ghost stdio model with a witness byte, for every writer state "
+         "satisfying the representation invariant (buffer fill, record position, length-so-far, file length): WriteBytes appends byte j of the "
+         "line as payload byte LenSoFar+j (all three granularities, any line length up to 65535), never touches earlier payload or headers, and "
+         "starts a new record at the line's address when the 64 KiB record limit would be exceeded; NewRecord patches the length of the closed "
+         "record and writes a consistent header (or reuses an empty record in place); OpenFile writes magic + first header; CloseFile writes entry "
+         "record, end marker and creator string. WriteCode (as.c) hands the line to the writer at its own address, reserves via NewRecord(address "
+         "behind the gap) and advances the counter by the line's length. The per-statement contracts compose by the induction in DESIGN.md.",
+    note="Instrumentation: CBMC without DFCC (no function contracts needed; obligations are harness assertions over the real functions). memcpy is "
+         "observed by a monitor (range check, witness byte, watched earlier byte). Assumed: no relocatable segments (PatchList/ExportList empty), "
+         "TurnWords == 0 (DreheCodes byte swapping not yet under contract), no instruction stuffing (StopfZahl == 0), writes do not fail.",
+)
